@@ -33,7 +33,7 @@ CHECKS = {
                      'share their Statechart with a second, busy interpreter.'),
     'C06': dict(engine='tlc-sismic', ref='6 C06', technique='TLC model checking over all skeletons with history states + TLC trace validation with ghost exit snapshots',
                 text='All skeletons containing shallow/deep history states; ghost last-exit snapshots decide what each '
-                     'restoration micro step of the real interpreter must enter.'),
+                     'restoration micro step of the real interpreter must enter; also charts whose history states are targeted from inside their parent.'),
     'C13': dict(engine='tlc-sismic', ref='6 C13', technique='TLC model checking with after/idle guards, clock advances and in-step ticks + TLC trace validation with ghost entry/idle times',
                 text='Charts with after/idle/active guards; the clock advances between and during steps; TLC checks that '
                      'every time value seen during a real step is the sampled one and that after()/idle() evaluate as documented in guards '
@@ -62,7 +62,8 @@ CHECKS = {
                      'copy_from_statechart; the renamed/host run must equal the original run after mapping names back.'),
     'C18': dict(engine='tlc-sismic', ref='6 C18', level='model_checking', technique='TLC model checking of Sismic.tla + crash-point enumeration in the binding: pickle/deepcopy at macro-step boundaries, TLC evaluates the three-way twin relation',
                 text='At macro-step boundaries of every model behaviour the real interpreter is pickled or deep-copied; copy, original '
-                     'and an undisturbed run continue in lock step; TLC checks their observations (incl. __old__ verdict inputs, history, delayed events) are equal.'),
+                     'and an undisturbed run continue in lock step; TLC checks their observations (incl. __old__ verdict inputs, history, delayed events) are equal. '
+                     'A third of the snapshots are taken while the SimulatedClock runs in real-time mode over a controlled wall clock.'),
     'C11': dict(engine='tlc-yaml', ref='6 C11', technique='TLC model checking of spec/Yaml.tla (RoundTrip) + TLC evaluation (spec/YamlTrace.tla) of real export/import round trips + twin-run relation for behaviour',
                 text='Import(Export(c)) = c is checked by TLC on the abstract documents of every start chart; the real '
                      'export_to_yaml/import_from_yaml pair is run on charts with plain, unicode and YAML-significant names and '
